@@ -68,6 +68,11 @@ impl FrameStore {
         if idx >= len {
             return None;
         }
+        // Frames may arrive with gaps or repeats; only report a position that really
+        // holds the requested seq.
+        if self.frames.get(idx).map(|event| event.seq) != Some(seq) {
+            return None;
+        }
         Some(idx)
     }
 }
